@@ -145,7 +145,7 @@ int main(int argc, char** argv) {
   int thorough = argc > 2 && !strcmp(argv[2], "thorough");
   va_install();
   void (*one)(struct enc*, uint64_t) = c07 ? c07_case : c10_case;
-  static uint64_t vals[70000];
+  static uint64_t vals[200000];
   for (int i = 0; i < NENC; i++) {
     struct enc* e = &encs[i];
     int n = 0;
@@ -157,11 +157,11 @@ int main(int argc, char** argv) {
         if (thorough && !c07) for (int v = 0; v < 65536; v++) vals[n++] = v;
         else { n = boundary(16, vals); if (!c07) for (int v = 0; v < 65536; v += 7) vals[n++] = v; }
         break;
-      case 32: n = boundary(32, vals); for (int k = 0; k < (thorough ? 2000 : 100); k++) vals[n++] = vh_rand() & 0xffffffffu; break;
+      case 32: n = boundary(32, vals); for (int k = 0; k < (thorough ? 30000 : 100); k++) vals[n++] = vh_rand() & 0xffffffffu; break;
       case 64:
         n = boundary(64, vals);
         if (!c07) { if (thorough) for (int v = 0; v < 65536; v++) vals[n++] = v; else for (int v = 0; v < 65536; v += 7) vals[n++] = v; }
-        for (int k = 0; k < (thorough ? 2000 : 100); k++) vals[n++] = vh_rand() >> vh_randn(64);
+        for (int k = 0; k < (thorough ? 30000 : 100); k++) vals[n++] = vh_rand() >> vh_randn(64);
         break;
       case 2: /* half-representable singles: all 65,536 halves (strided in quick) + NaNs */
         for (unsigned h = 0; h < 65536; h += (thorough || c07 ? (c07 ? 257 : 1) : 5)) vals[n++] = half_to_single(h);
@@ -170,12 +170,12 @@ int main(int argc, char** argv) {
       case 4:
         n = boundary(32, vals);
         for (unsigned ex = 0; ex < 256; ex++) { vals[n++] = ex << 23; vals[n++] = (ex << 23) | 1; vals[n++] = (ex << 23) | 0x7fffff; vals[n++] = 0x80000000u | (ex << 23) | 0x400000; }
-        for (int k = 0; k < (thorough ? 5000 : 200); k++) vals[n++] = vh_rand() & 0xffffffffu;
+        for (int k = 0; k < (thorough ? 40000 : 200); k++) vals[n++] = vh_rand() & 0xffffffffu;
         break;
       case 5:
         n = boundary(64, vals);
         for (uint64_t ex = 0; ex < 2048; ex += (c07 ? 64 : 1)) { vals[n++] = ex << 52; vals[n++] = (ex << 52) | 1; vals[n++] = (ex << 52) | 0xfffffffffffffull; vals[n++] = (1ull << 63) | (ex << 52) | (1ull << 51); }
-        for (int k = 0; k < (thorough ? 5000 : 200); k++) vals[n++] = vh_rand();
+        for (int k = 0; k < (thorough ? 40000 : 200); k++) vals[n++] = vh_rand();
         break;
     }
     if (c07 && n > 260) { /* buffer-contract sweep: boundary values are enough, 11 lines each */
